@@ -5,11 +5,13 @@
    every word of the model is bound by the parser's slot assignment without losing a child and with
    every required field filled; under `order_safe` the serializer's field order reproduces the input
    order; `check_attrs` implies that defaults / fixed values re-materialise.
-   Part 2 (faithful model of DtdParser + DtdMapper, Model/Dtd.v): full strength would be
+   Part 2 (faithful model of DtdParser + DtdMapper, Model/Dtd.v): at full strength,
        forall c dc m q, parse_content c = Some dc -> cm_of_raw c = Some m ->
-         maxcount m q <= cap (build_content dc None []) q /\ minsum (build_content dc None []) q <= mincount m q
-   which the model falsifies (three refutations, one per guard clause); it is proved under
-   dtd_guard = guard_seq && guard_or (and guard_ns for names), with a non-vacuity example. *)
+         maxcount m q <= cap (build_content dc no_kwargs []) q /\ minsum (build_content dc no_kwargs []) q <= mincount m q
+   (C16_dtd_capacity; no guard since the /repo fixes 160d460 and 1017a9f — the refutations for
+   (a,b)*, (a,b)?, (a*|b) and the clauses guard_seq / guard_or were deleted).  What remains refuted:
+   element namespaces (guard_ns) and, with compound fields, a sequence below a non-repeated choice
+   (guard_orseq: lost after the mapper, in CreateCompoundFields). *)
 From Coq Require Import NArith List Bool String.
 From XV Require Import Base.Str Spec.Cm Spec.Dtd Model.Dtd Model.DtdCorr Proofs.Cm Proofs.CmMatch Proofs.Dtd.
 Import ListNotations.
@@ -54,32 +56,33 @@ Proof. exact rejected_word_sound. Qed.
 Print Assumptions C16_rejected_word_sound.
 
 (* ---- Part 2: the DTD mapper *)
-Theorem C16_dtd_capacity : forall c dc m, parse_content c = Some dc -> cm_of_raw c = Some m -> dtd_guard c = true ->
-  forall q, enat_leb (maxcount m q) (cap (build_content dc None []) q) = true
-            /\ (minsum (build_content dc None []) q <= mincount m q)%nat.
+Theorem C16_dtd_capacity : forall c dc m, parse_content c = Some dc -> cm_of_raw c = Some m ->
+  forall q, enat_leb (maxcount m q) (cap (build_content dc no_kwargs []) q) = true
+            /\ (minsum (build_content dc no_kwargs []) q <= mincount m q)%nat.
 Proof. exact dtd_capacity. Qed.
 Print Assumptions C16_dtd_capacity.
 
 Theorem C16_dtd_children_fit : forall c dc m w,
-  parse_content c = Some dc -> cm_of_raw c = Some m -> dtd_guard c = true -> lang m w ->
-  forall q, ele (count q w) (cap (build_content dc None []) q) /\ (minsum (build_content dc None []) q <= count q w)%nat.
+  parse_content c = Some dc -> cm_of_raw c = Some m -> lang m w ->
+  forall q, ele (count q w) (cap (build_content dc no_kwargs []) q)
+            /\ (minsum (build_content dc no_kwargs []) q <= count q w)%nat.
 Proof. exact dtd_children_fit. Qed.
 Print Assumptions C16_dtd_children_fit.
 
-Theorem C16_dtd_capacity_refuted_seq :
-  exists c q, capacity_holds c q = Some false /\ guard_seq c = false /\ guard_or c = true.
-Proof. exact dtd_capacity_refuted_seq. Qed.
-Print Assumptions C16_dtd_capacity_refuted_seq.
+(* the witnesses of the former refutations, kept as regression examples *)
+Example C16_dtd_former_witnesses :
+  attrs_summary w_seq_star = Some [(lit "a", Some 0%N, Some Gen.DtdTables.sys_maxsize); (lit "b", Some 0%N, Some Gen.DtdTables.sys_maxsize)] /\
+  attrs_summary w_seq_opt = Some [(lit "a", Some 0%N, Some 1%N); (lit "b", Some 0%N, Some 1%N)] /\
+  attrs_summary w_or_member = Some [(lit "a", Some 0%N, Some Gen.DtdTables.sys_maxsize); (lit "b", Some 0%N, Some 1%N)].
+Proof. exact dtd_former_witnesses. Qed.
+Print Assumptions C16_dtd_former_witnesses.
 
-Theorem C16_dtd_required_refuted_seq :
-  exists c q, required_holds c q = Some false /\ guard_seq c = false /\ guard_or c = true.
-Proof. exact dtd_required_refuted_seq. Qed.
-Print Assumptions C16_dtd_required_refuted_seq.
-
-Theorem C16_dtd_capacity_refuted_or :
-  exists c q, capacity_holds c q = Some false /\ guard_seq c = true /\ guard_or c = false.
-Proof. exact dtd_capacity_refuted_or. Qed.
-Print Assumptions C16_dtd_capacity_refuted_or.
+Example C16_dtd_mapping_example :
+  attrs_summary w_ok
+  = Some [(lit "a", Some 1%N, Some 1%N); (lit "b", Some 0%N, Some Gen.DtdTables.sys_maxsize);
+          (lit "c", Some 0%N, Some Gen.DtdTables.sys_maxsize); (lit "d", Some 0%N, Some 1%N)].
+Proof. exact dtd_mapping_example. Qed.
+Print Assumptions C16_dtd_mapping_example.
 
 Theorem C16_dtd_default_ns_refuted :
   guard_ns w_default_ns = false /\
@@ -89,13 +92,13 @@ Theorem C16_dtd_default_ns_refuted :
 Proof. exact dtd_default_ns_children_unqualified. Qed.
 Print Assumptions C16_dtd_default_ns_refuted.
 
-Example C16_dtd_guard_nonvacuous :
-  dtd_guard w_ok = true /\
-  option_map (fun dc => map (fun a => (a_name a, a_min a, a_max a)) (build_content dc None [])) (parse_content w_ok)
-  = Some [(lit "a", Some 1%N, Some 1%N); (lit "b", Some 0%N, Some Gen.DtdTables.sys_maxsize);
-          (lit "c", Some 0%N, Some Gen.DtdTables.sys_maxsize); (lit "d", Some 0%N, Some 1%N)].
-Proof. exact dtd_guard_nonvacuous. Qed.
-Print Assumptions C16_dtd_guard_nonvacuous.
+Theorem C16_dtd_choice_of_sequence_refuted :
+  guard_orseq w_or_seq = false /\
+  option_map (fun dc => map (fun a => (a_max a, a_choice a)) (build_content dc no_kwargs [])) (parse_content w_or_seq)
+  = Some [(Some 1%N, Some []); (Some 1%N, Some []); (Some 1%N, Some []); (Some 1%N, Some [])] /\
+  option_map (maxcountP (fun _ => true)) (cm_of_raw w_or_seq) = Some (Some 3%nat).
+Proof. exact dtd_choice_of_sequence_one_choice_id. Qed.
+Print Assumptions C16_dtd_choice_of_sequence_refuted.
 
 Theorem C16_dtd_attr_defaults : forall ra da qn d m present,
   parse_attribute ra = Some da -> attr_decl_of_raw qn ra = Some d -> valid_attr d present = true ->
@@ -103,10 +106,9 @@ Theorem C16_dtd_attr_defaults : forall ra da qn d m present,
 Proof. exact dtd_attr_defaults. Qed.
 Print Assumptions C16_dtd_attr_defaults.
 
-Theorem C16_dtd_choice_of_sequence_refuted :
-  dtd_guard w_or_seq = true /\ guard_orseq w_or_seq = false /\
-  option_map (fun dc => map (fun a => (a_max a, a_choice a)) (build_content dc None [])) (parse_content w_or_seq)
-  = Some [(Some 1%N, Some []); (Some 1%N, Some []); (Some 1%N, Some []); (Some 1%N, Some [])] /\
-  option_map (maxcountP (fun _ => true)) (cm_of_raw w_or_seq) = Some (Some 3%nat).
-Proof. exact dtd_choice_of_sequence_one_choice_id. Qed.
-Print Assumptions C16_dtd_choice_of_sequence_refuted.
+Example C16_dtd_default_ampersand :
+  option_map da_default_value
+    (parse_attribute (mk_raw_attr None (lit "a") (lit "cdata") S_none (Some (lit "R&#38;D")) []))
+  = Some (Some (lit "R&D")).
+Proof. exact dtd_default_ampersand. Qed.
+Print Assumptions C16_dtd_default_ampersand.
